@@ -108,10 +108,12 @@ var c05 = Register("C05", "C05.parse", func(a c05Args) *Violation {
 			if p, md := mustParsePanics(s); p || md != d {
 				return violf("MustParse(%s) panicked=%v value %s; Parse gives %s", show, p, ref.Decode(md), g)
 			}
-			// Scan (fmt.Sscan) for the same numerals
-			if v := checkScan(s, l, d); v != nil {
-				return v
-			}
+		}
+		// Scan (fmt.Sscan) for the same numerals, under the same DefaultRoundingMode
+		var sv *Violation
+		withDefaultMode(m, func() { sv = checkScan(s, l, d, m) })
+		if sv != nil {
+			return sv
 		}
 	}
 	// classification
@@ -166,7 +168,7 @@ func tieLiteral(l literal) bool {
 	return len(d) >= 35 && len(d) <= 36 && d[len(d)-1] == '5'
 }
 
-func checkScan(s string, l literal, parsed d128.Decimal) *Violation {
+func checkScan(s string, l literal, parsed d128.Decimal, m d128.RoundingMode) *Violation {
 	if l.Kind == ref.Inf && len(strings.TrimLeft(s, "+-")) != 3 {
 		return nil // Scan is stated for NaN and Inf, not "Infinity"
 	}
@@ -176,11 +178,11 @@ func checkScan(s string, l literal, parsed d128.Decimal) *Violation {
 	var d d128.Decimal
 	n, err := fmt.Sscan(s, &d)
 	if err != nil || n != 1 {
-		return violf("fmt.Sscan(%s): n=%d err=%v", abbr(strconv.Quote(s)), n, err)
+		return violf("fmt.Sscan(%s) under DefaultRoundingMode=%v: n=%d err=%v", abbr(strconv.Quote(s)), m, n, err)
 	}
 	g, w := ref.Decode(d), ref.Decode(parsed)
 	if !ref.SameVal(g, w) {
-		return violf("fmt.Sscan(%s) = %s, Parse gives %s", abbr(strconv.Quote(s)), g, w)
+		return violf("fmt.Sscan(%s) under DefaultRoundingMode=%v = %s, Parse gives %s", abbr(strconv.Quote(s)), m, g, w)
 	}
 	return nil
 }
@@ -292,6 +294,33 @@ func genValidLiteral(t *rapid.T, thorough bool) string {
 		} else {
 			intD, fracD, hasDot = strings.Repeat("0", z)+body, digitString(t, ir(t, 0, 5, "f")), true
 		}
+	case kind == 9 && ir(t, 0, 1, "compensated") == 0:
+		// a very long run of zeros compensated by the written exponent: the value is moderate although both the
+		// digit count and the exponent are far beyond the format's range (and beyond 16- and 20-bit counters)
+		sizes := []int{300, 3000, 40000, 70000}
+		if thorough || ir(t, 0, 60, "megaQuick") == 0 {
+			sizes = append(sizes, 700000, 1100000)
+		}
+		z := sizes[ir(t, 0, len(sizes)-1, "zeros")] + ir(t, 0, 9, "zoff")
+		body := digitString(t, ir(t, 1, 38, "n"))
+		if strings.Trim(body, "0") == "" {
+			body = "1" + body
+		}
+		lead := ir(t, -40, 40, "lead") // decimal exponent the value should end up with
+		var e int
+		if ir(t, 0, 1, "fracZeros") == 0 {
+			intD, fracD, hasDot = "0", strings.Repeat("0", z)+body, true
+			e = z + len(body) + lead
+		} else {
+			intD, fracD, hasDot = body+strings.Repeat("0", z), "", false
+			e = -z + lead
+		}
+		return sign + func() string {
+			if hasDot {
+				return intD + "." + fracD
+			}
+			return intD
+		}() + "e" + strconv.Itoa(e)
 	case kind == 8:
 		// zero values
 		intD = strings.Repeat("0", ir(t, 0, 5, "iz"))
